@@ -108,3 +108,83 @@ func VP_C14_history() {
 		}
 	}
 }
+
+// vpSlowDB: the user database is I/O — while one request waits for its answer the service handles
+// other requests (gRPC serves every call on its own goroutine).
+type vpSlowDB struct {
+	inner database.Database
+	slow  map[string]bool
+}
+
+func (d *vpSlowDB) GetPassword(u string) string {
+	p := d.inner.GetPassword(u)
+	if d.slow[u] {
+		vpRunTasks()
+	}
+	return p
+}
+
+//vp:property C14
+//vp:bounds one session: a negotiate answered with a challenge, then TWO authenticate messages of that session handled concurrently (gRPC: one goroutine per call) — one by a client that knows ab's or ef's password and names that user, the other naming a 2-character user with symbolic characters and a proof made from any password of {ab's, ef's, another} under the name it sends or under ab's/ef's name; the database lookup of either request may take long enough for the other request to run meanwhile (each combination explored)
+//vp:assume cooperative schedules only: a request is overtaken only while it waits for the database; the session contract of VP_C14_history
+//vp:reach both-answered one-authenticated
+func VP_C14_concurrent() {
+	vpWire = map[string][]byte{}
+	vpWireBad = map[string]bool{}
+	vpSessions = nil
+	vpCreateFails = false
+	vpMayExpire = false
+	vpReqNo = 0
+	names := [2]string{}
+	db := &vpSlowDB{inner: vpDB(), slow: map[string]bool{}}
+	h := NewNTLMAuth(db)
+	vpWire["neg"] = vpNegotiateMsg()
+	r0, err0 := h.Authenticate(&auth.NtlmRequest{Session: "s1", NtlmMessage: "neg"})
+	vpAssume(err0 == nil && r0 != nil && r0.NtlmMessage != "")
+	sess := vpSessions[len(vpSessions)-1]
+	vpProofTab = map[byte]vpProof{}
+	for i := 0; i < 2; i++ {
+		is := vpItoa(i)
+		c0, c1 := vpU8("u0-"+is), vpU8("u1-"+is)
+		vpAssume(vpAnd(c0 < 0x80, c1 < 0x80))
+		names[i] = string([]byte{c0, c1})
+		vpWire["auth"+is] = vpAuthenticateMsgTagged([]byte{c0, 0, c1, 0}, byte(i))
+		d := vpProof{msgUser: names[i], userSel: vpInt("proof-user-" + is), pwId: vpInt("proof-pw-" + is), clientSess: sess.id}
+		vpAssume(vpAnd(vpAnd(d.pwId >= 1, d.pwId <= 3), vpAnd(d.userSel >= 0, d.userSel <= 2)))
+		vpProofTab[byte(i)] = d
+		if vpBool("database-slow-for-request-" + is) {
+			db.slow[names[i]] = true
+		}
+	}
+	var rs [2]*auth.NtlmResponse
+	done := make(chan bool, 1)
+	go func() {
+		rs[1], _ = h.Authenticate(&auth.NtlmRequest{Session: "s1", NtlmMessage: "auth1"})
+		done <- true
+	}()
+	rs[0], _ = h.Authenticate(&auth.NtlmRequest{Session: "s1", NtlmMessage: "auth0"})
+	<-done
+	vpReach("both-answered")
+	for i := 0; i < 2; i++ {
+		r := rs[i]
+		vpAssert(r != nil, "a-response-object-is-always-returned")
+		if r == nil || !r.Authenticated {
+			continue
+		}
+		vpReach("one-authenticated")
+		d := vpProofTab[byte(i)]
+		want := map[string]string{"ab": "pw-ab", "ef": "pw-ef"}[names[i]]
+		vpAssert(want != "", "authenticated-user-is-configured-with-a-non-empty-password")
+		vpAssert(r.Username == names[i], "returns-exactly-the-configured-user-name")
+		// the client proved knowledge of the NAMED user's password: its proof was made from that password
+		// under that user's name
+		proofUser := names[i]
+		if d.userSel == 1 {
+			proofUser = "ab"
+		} else if d.userSel == 2 {
+			proofUser = "ef"
+		}
+		vpAssert(d.pwId == vpPwId(want) && proofUser == names[i], "concurrent-request-authenticated-only-with-proof-of-the-named-users-password")
+	}
+	vpProofTab = nil
+}
